@@ -242,6 +242,35 @@ pub fn run_generic(cx: &mut Ctx, fmt: Fmt) {
             });
         }
     }
+    // inputs that are themselves compressed streams (an already-compressed file compressed again)
+    for k in 0..(if miri { 2 } else { 24 }) {
+        cx.case("inputs_that_are_streams", |c| {
+            c.sit("input_is_itself_a_compressed_stream");
+            let mut rng = c.rng.clone();
+            let (inner, _) = lzgen::gen_input(&mut rng, if miri { 40 } else { 600 });
+            // the library's own output for both formats, and reference-encoded streams
+            for f2 in [Fmt::Lz10, Fmt::Lz13] {
+                if inner.is_empty() && f2 == Fmt::Lz13 {
+                    continue;
+                }
+                if let Some(Ok(s)) = compress(c, f2, &inner) {
+                    check_compress(c, fmt, &s, "the library's own compressed stream as input");
+                    if let Some(Ok(s2)) = compress(c, fmt, &s) {
+                        check_compress(c, fmt, &s2, "a twice-compressed stream as input");
+                    }
+                }
+            }
+            let kind = if k % 2 == 0 { crate::refs::lz::Kind::Lz10 } else { crate::refs::lz::Kind::Lz11 };
+            let (t, d) = crate::refs::lz::gen_tokens(&mut rng, kind, if miri { 30 } else { 300 });
+            let bare = crate::refs::lz::encode(kind, &t, d.len());
+            check_compress(c, fmt, &bare, "a reference-encoded stream as input");
+            check_compress(c, fmt, &crate::refs::lz::wrap13(&bare), "a 0x13-wrapped stream as input");
+            check_compress(c, fmt, &crate::refs::lz::stored(&d), "a stored-form file as input");
+            for fixed in [&[0x10u8, 0, 0, 0][..], &[0x10, 0, 0, 0, 0, 0][..], &[0x11, 0, 0, 0, 0, 0, 0, 0][..], &[0x13, 4, 0, 0, 0x11, 4, 0, 0, 0, b'a', b'b', b'c', b'd'][..], &[0x10, 4, 0, 0, 0, b'a', b'b', b'c', b'd'][..], &[0x00, 4, 0, 0, b'a', b'b', b'c', b'd'][..]] {
+                check_compress(c, fmt, fixed, "a tiny hand-written stream as input");
+            }
+        });
+    }
     if !miri && cx.a.scale >= 0.49 {
         // calls outside the domain (16 MiB and more; for LZ13 also the empty input) must not leave
         // anything behind that changes the next ordinary call
@@ -267,6 +296,14 @@ pub fn run_generic(cx: &mut Ctx, fmt: Fmt) {
         cx.case("largest_input_2^24-1", |c| {
             c.sit("largest_input");
             check_compress(c, fmt, &vec![0u8; (1 << 24) - 1], "zeros(2^24-1)");
+            // the same length with an incompressible tail (the compressed size and the 0x13 wrapper's
+            // size field then differ from the all-zero case)
+            let mut v = vec![0u8; (1 << 24) - 1];
+            let n = v.len();
+            for (i, b) in [1u8, 2, 3, 4, 5, 250, 7, 99].iter().enumerate() {
+                v[n - 8 + i] = *b;
+            }
+            check_compress(c, fmt, &v, "zeros(2^24-9) + 8 distinct bytes");
         });
     }
     if !cx.a.quick() && !miri && cx.a.scale >= 0.99 {
